@@ -132,7 +132,7 @@ impl<T> Route<T> {
 
         for header in self.headers() {
             for request_header in &request.headers {
-                if request_header.name != header.name {
+                if request_header.name.to_lowercase() != header.name.to_lowercase() {
                     continue;
                 }
 
